@@ -37,8 +37,19 @@ pub struct FileStorage {
 impl FileStorage {
     fn apply_wal_record(file: &mut File, record: WriteAheadLogRecord) -> Result<(), DbError> {
         if record.value.is_empty() {
+            #[cfg(agdb_verif)]
+            crate::verif::fs_event(crate::verif::FsFile::Data, "apply_wal_record", || {
+                crate::verif::FsOp::SetLen { len: record.pos }
+            });
             file.set_len(record.pos)?;
         } else {
+            #[cfg(agdb_verif)]
+            crate::verif::fs_event(crate::verif::FsFile::Data, "apply_wal_record", || {
+                crate::verif::FsOp::WriteAt {
+                    pos: record.pos,
+                    bytes: record.value.clone(),
+                }
+            });
             file.seek(SeekFrom::Start(record.pos))?;
             file.write_all(&record.value)?;
         }
@@ -60,6 +71,8 @@ impl FileStorage {
 
     fn read_impl(mut file: &File, pos: u64, buffer: &mut [u8]) -> Result<(), DbError> {
         file.seek(SeekFrom::Start(pos))?;
+        #[cfg(agdb_verif)]
+        crate::verif::read_gap();
         file.read_exact(buffer)?;
         Ok(())
     }
@@ -114,8 +127,12 @@ impl StorageData for FileStorage {
         let mut buffer = vec![0_u8; value_len as usize];
 
         if let Ok(_guard) = self.lock.try_lock() {
+            #[cfg(agdb_verif)]
+            crate::verif::READS_LOCKED.fetch_add(1, std::sync::atomic::Ordering::Relaxed);
             Self::read_impl(&self.file, pos, &mut buffer)?;
         } else {
+            #[cfg(agdb_verif)]
+            crate::verif::READS_FALLBACK.fetch_add(1, std::sync::atomic::Ordering::Relaxed);
             Self::read_impl(&self.open_file()?, pos, &mut buffer)?;
         }
 
@@ -123,6 +140,12 @@ impl StorageData for FileStorage {
     }
 
     fn rename(&mut self, new_name: &str) -> Result<(), DbError> {
+        #[cfg(agdb_verif)]
+        crate::verif::fs_event(crate::verif::FsFile::Data, "rename", || {
+            crate::verif::FsOp::Rename {
+                to: new_name.to_string(),
+            }
+        });
         std::fs::rename(&self.filename, new_name)?;
         self.file = OpenOptions::new().read(true).write(true).open(new_name)?;
         self.wal = WriteAheadLog::new(new_name)?;
@@ -142,6 +165,10 @@ impl StorageData for FileStorage {
             self.wal.insert(new_len, &[])?;
         }
 
+        #[cfg(agdb_verif)]
+        crate::verif::fs_event(crate::verif::FsFile::Data, "resize", || {
+            crate::verif::FsOp::SetLen { len: new_len }
+        });
         self.file.set_len(new_len)?;
         self.len = new_len;
         Ok(())
@@ -153,6 +180,13 @@ impl StorageData for FileStorage {
         let mut buffer = vec![0_u8; (std::cmp::min(current_len, end) - pos) as usize];
         Self::read_impl(&self.file, pos, &mut buffer)?;
         self.wal.insert(pos, &buffer)?;
+        #[cfg(agdb_verif)]
+        crate::verif::fs_event(crate::verif::FsFile::Data, "write", || {
+            crate::verif::FsOp::WriteAt {
+                pos,
+                bytes: bytes.to_vec(),
+            }
+        });
         self.file.seek(SeekFrom::Start(pos))?;
         self.file.write_all(bytes)?;
         self.len = std::cmp::max(current_len, end);
